@@ -21,7 +21,7 @@ Next == /\ l <= Len(Rec)
         /\ l' = l + 1
         /\ LET e == Rec[l]
                tags == Judge(rr, org, e)
-           IN /\ rr' = Step(rr, e)
+           IN /\ rr' = RegStep(rr, e)
               /\ org' = StepOrg(org, e)
               /\ bad' = IF Cardinality(bad) >= MaxBad THEN bad
                         ELSE bad \cup {<<l, e.cid, t>> : t \in tags}
